@@ -70,7 +70,7 @@ class Material:
         t1 = T[1]["tag"]
         tag = {"T1": t1, "T2": T[2]["tag"], "TX": flip(t1, v), "Tshort": t1[:[-1, 8, 0, 12, 4][v % 5]] if v % 5 else t1[:-1],
                "Tlong": t1 + bytes(1 + v % 3)}[w["tag"]]
-        aad = {"none": None, "A1": self.Av[1], "A2": self.Av[2], "AX": flip(self.Av[1], v)}[w["aad"]]
+        aad = {"none": None, "A1": self.Av[1], "A2": self.Av[2], "AX": flip(self.Av[1], v), "A0": b""}[w["aad"]]
         # paired faults: a length change of one segment together with the complementary change of its neighbour
         # (the octets only move across the segment boundary, so naive concatenation sees the same string)
         if v % 2 == 0 and w["ct"] == "CX":
@@ -213,7 +213,7 @@ def load(ctx: Ctx, with_dev: bool):
     rs = ctx.tlc_many([("Jwe", "Jwe_" + m, {"timeout": 1200}) for m in ("wrap", "dir", "agree", "wraptag")])
     if with_dev:
         ctx.tlc_many([("Jwe", "Jwe_dev_" + d, {"timeout": 600, "expect_violation": True})
-                      for d in ("AadFromParsedHeader", "TagPrefixCompared", "NonEmptyEkAccepted", "MultipleCekIgnored", "ErrorsAlwaysSwallowed")])
+                      for d in ("AadFromParsedHeader", "TagPrefixCompared", "NonEmptyEkAccepted", "MultipleCekIgnored", "ErrorsAlwaysSwallowed", "EmptyAadReparsed")])
     by_mode = {}
     for name, r in zip(("wrap", "dir", "agree", "wraptag"), rs):
         seen, lst = set(), []
